@@ -42,6 +42,58 @@ def opml_items(data):
     return True, items, ""
 
 
+OPML_MC = "CONSTANTS MaxDepth = %d\n Worst = %s\nINIT GInit\nNEXT GNext\nINVARIANTS Parsed Fits\nVIEW GView\nCHECK_DEADLOCK FALSE\n"
+
+
+def opml_parser_level(chk, tier, exported):
+    """the import parser (opml-parser.c): the lemon driver of LemonParser over ITS tables (extracted from the tree under test) accepts every outline document nested
+    to depth 6 -- any width, with/without xml declaration, head, title, preamble item, metadata item -- without syntax error or stack overflow; the deepest
+    nesting its stack allows is measured; every Parse() call of real imports (lemon's own trace) is validated against the same driver"""
+    sys.path.insert(0, os.path.join(VERIF, "specgen"))
+    import lemon_tables, lemon, re as _re
+    gd = os.path.join(BUILD, "specgen")
+    tables = lemon_tables.generate_opml(gd)
+    mc = tlc.run("OpmlParser", OPML_MC % (6 if tier == "quick" else 9, "FALSE"), workers=8, timeout=1200, want_printed=False, spec_dirs=(gd,), coverage=False)
+    chk.cov["states"] += mc.distinct; chk.cov["transitions"] += mc.generated
+    if mc.violated:
+        chk.report("opml-parser:" + mc.violated, "the OPML import parser, driven over its own tables, does not parse every outline document of depth <= 6 (%s) :: %s" % (mc.violated, mc.cex[-1500:]), dict(tlc=mc.cex[-6000:]))
+    lim = tlc.run("OpmlParser", OPML_MC % (200, "TRUE"), workers=1, timeout=600, want_printed=False, spec_dirs=(gd,))
+    m = _re.findall(r"/\\ depth = (\d+)", lim.out)
+    chk.cov["opml_parser"] = dict(states=mc.distinct, yystackdepth=tables["YYSTACKDEPTH"], deepest_nesting_parsed=(max(map(int, m)) - 1) if (lim.violated and m) else None)
+    # conformance: real imports in the build with lemon's trace seam
+    exe = build.build_harness("trace")
+    sel = exported if tier == "thorough" else exported[:: max(1, len(exported) // 250)]
+    segs = []; per = 25
+    for i in range(0, len(sel), per):
+        s = ["seg\topmlparse", "ptrace\t1"]
+        for j, b in enumerate(sel[i:i + per]):
+            s += [line("src", "o%d" % j, sx(b)), line("conv", "s_conv", "o%d" % j, docs.FMT["html"], docs.STD | docs.EXT["PARSE_OPML"], 0)]
+        segs.append(s)
+    res = run_harness(exe, segs, timeout=60)
+    ltrace = []; nsess = 0
+    for seg, r in zip(segs, res):
+        if r["status"] != "ok":
+            kd, f = san_signature(r.get("san", "")); chk.report("opml-import:%s:%s:%s" % (r["status"], kd, f), "import of an exported outline ended the process :: %s" % r.get("san", "")[:300].replace("\n", " | "), dict(script=[x[:200] for x in seg[:6]]))
+            continue
+        for ev in r["events"]:
+            if ev.get("e") != "conv": continue
+            a = lemon.own_trace(project.lat1(ev.get("stderr")).decode("utf-8", "replace") if ev.get("stderr") is not None else "")
+            try:
+                ss = lemon.sessions(a, tables)
+            except lemon.TraceShapeError as ex:
+                raise FrameworkError("OPML lemon trace not understood: %s" % ex)
+            for s2 in ss:
+                nsess += 1; ltrace.append(dict(e="reset"))
+                for c in s2: ltrace.append(dict(e="feed", tok=c["tok"], rules=c["rules"], fb=c["fb"], out=c["out"], ret=c["ret"]))
+    if nsess < len(sel) // 2: raise FrameworkError("OPML parser traces: %d sessions for %d imports" % (nsess, len(sel)))
+    cfgt = "CONSTANTS MaxDepth = 6\n Worst = FALSE\nINIT TInit\nNEXT TNext\nINVARIANT TraceNeverRejects\nPOSTCONDITION TraceAccepted\nCHECK_DEADLOCK FALSE\n"
+    acc, rej, st, info = tlc.validate_trace("OpmlLemonTrace", cfgt.replace("CONSTANTS MaxDepth = 6\n Worst = FALSE\n", ""), ltrace, spec_dirs=(gd,), timeout=1200, independent=True, max_rejects=6)
+    chk.add("traces_validated_against_impl", nsess - len(rej))
+    chk.cov["opml_parser"]["parser_instances_validated"] = nsess - len(rej); chk.cov["opml_parser"]["parse_calls"] = acc
+    for seg, idx in rej[:1]:
+        chk.report("opml-parser-trace", "a Parse() call of the real OPML import parser is not the step the driver takes over the extracted tables: %s" % json.dumps(seg[idx]), dict(session=seg[:idx + 1]))
+
+
 def run(tier, seed):
     chk = Check("C14", LEVEL, tier, seed)
     rnd = random.Random(seed)
@@ -90,6 +142,7 @@ def run(tier, seed):
                 rt[ks[si * per + int(ev["src"][1:])]] = ev["digest"]
             elif ev.get("e") == "import":
                 rtnull[ks[si * per + int(ev["src"][1:])]] = ev["null"]
+    opml_parser_level(chk, tier, [opml[k] for k in ks])
     trace = []
     for k, d in enumerate(dl):
         if k not in opml: continue
